@@ -41,7 +41,7 @@ ASSUMPTIONS = [
 ]
 STUBS = ["recording target object (captures the index passed to __setitem__)", "functools.lru_cache of dask.utils._cumsum cleared per path"]
 ENUM = ["number of chunks per axis, ndim, region step, None-ness of region start/stop"]
-OUTSIDE = ["to_npy_stack / from_npy_stack (file I/O)", "lock contention between real threads", "targets that are Delayed objects",
+OUTSIDE = ["to_npy_stack / from_npy_stack beyond the e2e witnesses (file I/O: round trip along every axis on each witness, no solver claim)", "lock contention between real threads", "targets that are Delayed objects",
            "regions containing integers or negative bounds (fuse_slice raises NotImplementedError: documented limitation)"]
 BOUNDS = {
     "quick": dict(tiling="ndim<=2, <=3 chunks per axis, chunk sizes >= 0 unbounded", region="1-d and 2-d, step in {None,1,2,3}, start/stop symbolic >= 0 or None, "
@@ -106,6 +106,9 @@ def mk_tiling(nchunks):
 
     def e2e(model):
         chunks = tuple(tuple(model[f"c{a}_{i}"] % 5 for i in range(n)) for a, n in enumerate(nchunks))
+        _store_e2e(chunks, None, None)
+        # and a variant without empty chunks (irregular sizes), which also exercises the npy-stack round trip
+        chunks = tuple(tuple(1 + (model[f"c{a}_{i}"] + i + 2 * a) % 4 for i in range(n)) for a, n in enumerate(nchunks))
         _store_e2e(chunks, None, None)
 
     return Obligation(f"tiling{list(nchunks)}", setup, run, e2e=e2e, e2e_every=7)
@@ -251,6 +254,17 @@ def _store_e2e(chunks, region, T):
                 raise Violation("return_stored chunks differ")
         if not np.array_equal(tgt, ref):
             raise Violation(f"store variant {variant} wrote a different array: chunks={chunks} region={region} target shape={T}")
+    # to_npy_stack / from_npy_stack round trip along every axis (file I/O: witness only)
+    if region is None and all(all(c > 0 for c in cs) for cs in chunks) and x.size:
+        import tempfile
+        for axis in range(x.ndim):
+            with tempfile.TemporaryDirectory() as d:
+                da.to_npy_stack(d, src, axis=axis)
+                back = da.from_npy_stack(d)
+                if back.shape != x.shape or not np.array_equal(back.compute(scheduler="sync"), x):
+                    raise Violation(f"to_npy_stack/from_npy_stack(axis={axis}) does not reproduce the array: chunks={chunks}")
+                if back.chunks[axis] != chunks[axis]:
+                    raise Violation(f"from_npy_stack chunks {back.chunks} differ from {chunks} along the stacking axis {axis}")
     # several sources in one call, into distinct targets that hold equal data beforehand
     t1, t2, t3 = np.full(T, -1), np.full(T, -1), np.full(T, -1)
     src2 = da.from_array(x + 1000, chunks=chunks)
